@@ -32,6 +32,18 @@ func resolveDependentFields(
 	dependencies map[string]string,
 	subdefinition string,
 ) ([]Field, error) {
+	return resolveFields(parentPackage, dependencies, subdefinition, map[string]bool{})
+}
+
+// resolveFields resolves the fields of one definition. resolving holds the
+// dependency types currently being expanded, so that a type that (directly or
+// through other types) contains itself is reported instead of recursing forever.
+func resolveFields(
+	parentPackage string,
+	dependencies map[string]string,
+	subdefinition string,
+	resolving map[string]bool,
+) ([]Field, error) {
 	fields := []Field{}
 	for i, line := range strings.Split(subdefinition, "\n") {
 		line := strings.TrimSpace(line)
@@ -85,27 +97,35 @@ func resolveDependentFields(
 			if typeIsQualified {
 				fieldParentPackage = strings.Split(fieldType, "/")[0]
 			}
+			resolvedType := fieldType
 			subdefinition, typeIsPresent := dependencies[fieldType]
 			switch {
 			case typeIsPresent:
 				break
 			case fieldType == "Header":
-				subdefinition, ok = dependencies["std_msgs/Header"]
+				resolvedType = "std_msgs/Header"
+				subdefinition, ok = dependencies[resolvedType]
 				if !ok {
 					return nil, fmt.Errorf("dependency Header not found")
 				}
 			case !typeIsPresent && !typeIsQualified:
-				qualifiedType := fieldParentPackage + "/" + fieldType
-				subdefinition, ok = dependencies[qualifiedType]
+				resolvedType = fieldParentPackage + "/" + fieldType
+				subdefinition, ok = dependencies[resolvedType]
 				if !ok {
-					return nil, fmt.Errorf("dependency %s not found", qualifiedType)
+					return nil, fmt.Errorf("dependency %s not found", resolvedType)
 				}
 			}
-			recordFields, err = resolveDependentFields(
+			if resolving[resolvedType] {
+				return nil, fmt.Errorf("type %s is defined in terms of itself", resolvedType)
+			}
+			resolving[resolvedType] = true
+			recordFields, err = resolveFields(
 				fieldParentPackage,
 				dependencies,
 				subdefinition,
+				resolving,
 			)
+			delete(resolving, resolvedType)
 			if err != nil {
 				return nil, fmt.Errorf("failed to resolve dependent record: %w", err)
 			}
